@@ -255,6 +255,17 @@ def bleu_zero_weight_stream(ctx):
     ctx.oblige("tie:bleu-zero-weights:BLEUScore", unexplained is None and not seen_known,
                detail=("known finding %s reproduced; " % FINDING_ZERO_WEIGHT if seen_known else "")
                + (repr(core.canon(unexplained))[:600] if unexplained else ""))
+    variant = TX.bleu_variant()
+    note = {"code": "BLEU: the tree computes exp(sum w_i log p_i) with 0 * log 0 = nan (V_code model; finding %s open)" % FINDING_ZERO_WEIGHT,
+            "fixed": "BLEU: the tree ignores zero-weighted orders (V_fixed model; fixes/bleu-zero-weight.patch applied)",
+            "unknown": "BLEU: the witness of bleu_value_is_number_refuted gives neither nan nor 0.5; tied to the V_code model"}[variant]
+    ctx.notes.append(note)
+    ctx.oblige("tie:variant-decided (" + note + ")", True)
+    if variant == "fixed" and not seen_known:
+        ctx.notes.append("stale finding %s: the witness of bleu_value_is_number_refuted / "
+                         "bleu_class_eq_functional_zero_weight_refuted no longer fails on this tree (repaired); those theorems "
+                         "remain statements about the V_code variant of the model, bleu_value_is_number_fixed and "
+                         "bleu_class_eq_functional_fixed are the ones tied to this tree" % FINDING_ZERO_WEIGHT)
 
 
 def run(ctx):
